@@ -64,6 +64,13 @@ def run_corpus(prop, rep):
             rep.extra.setdefault("mutants_skipped", []).append(name)
             continue
         n += 1
+        if expect == "none":
+            # a behaviour-preserving edit: the check must stay silent
+            if code != 0:
+                rep.broke("neutral edit %s raises an alarm (exit %d): %s" % (name, code, out[-400:]))
+            else:
+                rep.extra.setdefault("neutral_edits_silent", []).append(name)
+            continue
         if not named:
             rep.broke("mutant %s not detected as %s (exit %d): %s" % (name, expect, code, out[-400:]))
         else:
